@@ -58,6 +58,10 @@ type input struct {
 	ValErr bool       `json:"valerr"`
 	Certs  []int      `json:"certs"`
 	Script []respSpec `json:"script"`
+	// Tight: when Accept runs, the accepting node's per-producer pending weight limit equals the largest pending
+	// weight any producer has in its storage (0 when nothing is pending): signature requests for more chunks of that
+	// producer would be refused, accepting a decided block that references them must still work.
+	Tight bool `json:"tight,omitempty"`
 }
 
 type mirror struct {
@@ -221,6 +225,17 @@ type ruleFactory struct{}
 
 func (ruleFactory) GetRules(int64) dsmr.Rules { return rules{} }
 
+// rules of the accepting node: the per-producer pending weight limit can be tightened by a scenario (input.Tight)
+// after its chunk storage has been filled, so that a producer's budget is exactly exhausted when Accept runs.
+type limRules struct{ lim *uint64 }
+
+func (limRules) GetValidityWindow() int64                       { return 10_000 }
+func (l limRules) GetMaxAccumulatedProducerChunkWeight() uint64 { return *l.lim }
+
+type limRuleFactory struct{ lim *uint64 }
+
+func (f limRuleFactory) GetRules(int64) dsmr.Rules { return limRules(f) }
+
 var errInjected = errors.New("injected storage failure")
 
 type faultDB struct {
@@ -339,8 +354,9 @@ func run(t *testing.T, in input, kind string) (c emit.Case, err error) {
 	ctx := context.Background()
 	cs := &chainState{w: w}
 	fdb := &faultDB{Database: memdb.New(), fail: map[string]bool{}}
+	lim := uint64(1) << 40
 	verifier := dsmr.NewChunkVerifier[dsmrtest.Tx](cs, ruleFactory{})
-	storage, e := dsmr.NewChunkStorage[dsmrtest.Tx](verifier, fdb, ruleFactory{})
+	storage, e := dsmr.NewChunkStorage[dsmrtest.Tx](verifier, fdb, limRuleFactory{&lim})
 	if e != nil {
 		return c, e
 	}
@@ -374,6 +390,20 @@ func run(t *testing.T, in input, kind string) (c emit.Case, err error) {
 	if len(saved) > 0 {
 		if e := storage.SetMin(0, saved); e != nil {
 			return c, e
+		}
+	}
+	if in.Tight {
+		pend := map[ids.NodeID]uint64{}
+		isSaved := map[ids.ID]bool{}
+		for _, id := range saved {
+			isSaved[id] = true
+		}
+		lim = 0
+		for i, st := range in.Stats {
+			if (st == stPendCert || st == stPendNoCert) && !isSaved[w.valid[i].id] {
+				pend[w.valid[i].chunk.Producer] += uint64(len(w.valid[i].bytes))
+				lim = max(lim, pend[w.valid[i].chunk.Producer])
+			}
 		}
 	}
 
@@ -604,6 +634,10 @@ func gen(r *rand.Rand) (input, string) {
 		default:
 			kind = "fetch"
 		}
+	}
+	if r.Intn(3) == 0 {
+		in.Tight = true
+		kind += "/tight-budget"
 	}
 	return in, kind
 }
